@@ -126,6 +126,10 @@ func (this *code39Reader) DecodeRow(rowNumber int, row *gozxing.BitArray, hints 
 	}
 
 	if this.usingCheckDigit {
+		if len(result) == 0 {
+			// start and stop characters only: there is no check character to verify
+			return nil, gozxing.NewNotFoundException("empty result")
+		}
 		max := len(result) - 1
 		total := 0
 		for i := 0; i < max; i++ {
